@@ -13,7 +13,7 @@ esac
 if [ -n "$TESTS" ]; then
   /venv/bin/python -m pytest -q -p no:cacheprovider -x tests 2>&1 | tail -1
 fi
-cd /verif
+cd "$(dirname "$0")/.."
 VERIF_REPO="$D" ./check "$PROP" --tier "$TIER" 2>&1 | grep -v "^    " | head -${LINES_MAX:-14}
 RC=$?
 git -C /repo worktree remove --force "$D"
